@@ -403,6 +403,71 @@ func C19(r *eng.Run) {
 	r.Transitions.Add(r.Evals())
 	r.Phase("binary observers", t0, nil)
 
+	// near-equal pairs: K*10^g (every cohort member) against K*10^g + delta (every cohort member), the shapes on
+	// which a comparison or subtraction that drops digits stage by stage can become encoding-dependent
+	t0 = time.Now()
+	type ne struct {
+		k     int64
+		g     int
+		delta *big.Int
+	}
+	var nes []ne
+	for _, k := range []int64{1, 7, 99, 123, 1024} {
+		for g := 1; g <= 34; g++ {
+			ds := []*big.Int{big.NewInt(1), big.NewInt(-1), new(big.Int).Mul(big.NewInt(5), ref.Pow10(g-1))}
+			for j := 1; j < g; j += 3 {
+				ds = append(ds, ref.Pow10(j))
+			}
+			for _, d := range ds {
+				nes = append(nes, ne{k, g, d})
+			}
+		}
+	}
+	r.Bounds["near_equal_pairs"] = len(nes)
+	cmpObs := []binaryObs{bobs[0], bobs[1], bobs[2], bobs[4], bobs[8]}
+	r.Par(len(nes), func(w *eng.W, i int) {
+		e := nes[i]
+		K := big.NewInt(e.k)
+		big10 := new(big.Int).Mul(K, ref.Pow10(e.g))
+		other := new(big.Int).Add(big10, e.delta)
+		if other.Sign() <= 0 || other.Cmp(ref.Cmax) > 0 {
+			return
+		}
+		for _, q := range []int{0, -40, ref.MinQ} {
+			xc, xq := Cohort(K, q+e.g)
+			yc, yq := Cohort(other, q)
+			var n int64
+			for s := 0; s < 2; s++ {
+				for _, ob := range cmpObs {
+					for _, swap := range []bool{false, true} {
+						var first string
+						for a := range xc {
+							for b := range yc {
+								xb, yb := MkBits(s == 1, xc[a], xq[a]), MkBits(s == 1, yc[b], yq[b])
+								if swap {
+									xb, yb = yb, xb
+								}
+								g := safeObs(func() string { return ob.f(D(xb), D(yb)) })
+								n++
+								if a == 0 && b == 0 {
+									first = g
+								} else if g != first {
+									w.R.Fail(eng.Case{Op: ob.name, Args: []string{xb.Hex(), yb.Hex()}, Got: trunc(g), Want: trunc(first) + " (as for other encodings of the same two values)", Note: fmt.Sprintf("%s vs %s", ref.Decode(xb), ref.Decode(yb))})
+									a, b = len(xc), len(yc)
+									break
+								}
+							}
+						}
+					}
+				}
+			}
+			w.EvalN(n)
+			w.CellN("binary/near-equal-pairs", n, true)
+		}
+	})
+	r.Transitions.Add(r.Evals())
+	r.Phase("near-equal pairs", t0, nil)
+
 	// Canonical over shapes x every exponent, zeros, specials
 	t0 = time.Now()
 	shapes := Shapes(r.Thorough())
